@@ -13,7 +13,7 @@ CLAIMS = {
              text="TLC checks exhaustively (value sequences of length 0..4 split into up to 3 Accum batches; time-ordered timestamp sequences x thresholds on and between the gaps, whole seconds and half seconds) that the implementation-shaped accumulators (Count.Sum += Len, Min/Max initialise from the first element then fold, Avg sum/count, Gap epochs[1:]-epochs[:-1] > threshold) refine count / min / max / mean / the set of consecutive pairs whose time difference exceeds the threshold. Every enumerated history is replayed into the real aggregates through AggRunner.Run (single batch) or Accum (several batches) for all ten numeric column types with boundary values of each type (min/max/count) and an exact affine value map (avg); for empty input only count = 0 and absence of a panic are demanded.",
              note="Trusted: TLC, the Python concretisation (levels -> per-type boundary values exactly representable in float32). Known findings are modelled as named deviations (NarrowTypesDropped, GapIgnoresNanos). gap without an explicit threshold (z-score mode) is outside the statement."),
 }
-import calendar, json, os, random, struct, sys
+import time, calendar, json, os, random, struct, sys
 import vlib
 from vlib import Result, Undecided
 
@@ -137,8 +137,57 @@ def make_conc(rng, fine, coarse, nt, nw, ratio, np_, kind):
     return c
 
 
+def _add_months(y, m, k):
+    m0 = y * 12 + (m - 1) + k
+    return m0 // 12, m0 % 12 + 1
+
+
+def make_conc_cal(rng, unit, nt, nw, np_, kind):
+    """calendar windows (UTC): model window k -> a real week / month / year, chosen so that consecutive model windows are
+    adjacent or far apart and cross year ends (a series with a hole over New Year)"""
+    wins = []
+    if unit == "1M":
+        y, m = rng.choice([(2019, 10), (1999, 12), (2020, 1), (2020, 2), (2023, 11), (2016, 12)])
+        steps = [1, 2, 3, 11, 12, 13]
+        for k in range(nw):
+            if k:
+                y, m = _add_months(y, m, 1 if rng.random() < 0.35 else rng.choice(steps))
+            y2, m2 = _add_months(y, m, 1)
+            a, b = calendar.timegm((y, m, 1, 0, 0, 0)), calendar.timegm((y2, m2, 1, 0, 0, 0))
+            wins.append((a, b - a))
+    elif unit == "1W":
+        mon = calendar.timegm(rng.choice([(2018, 12, 31), (2019, 12, 30), (2020, 12, 28), (2024, 12, 30), (2021, 3, 15), (1999, 12, 27)]) + (0, 0, 0))
+        for k in range(nw):
+            if k:
+                mon += 7 * 86400 * (1 if rng.random() < 0.35 else rng.choice([1, 2, 51, 52, 53]))
+            wins.append((mon, 7 * 86400))
+    else:
+        y = rng.choice([1999, 2000, 2019, 2023])
+        for k in range(nw):
+            if k:
+                y += 1 if rng.random() < 0.5 else 2
+            a, b = calendar.timegm((y, 1, 1, 0, 0, 0)), calendar.timegm((y + 1, 1, 1, 0, 0, 0))
+            wins.append((a, b - a))
+    nanos = rng.random() < 0.5
+    minlen = min(l for _, l in wins)
+    mids = set()
+    while len(mids) < max(0, nt - 2):
+        mids.add(rng.choice([1, 86400, 86400 * 2 + 3600, minlen - 2, rng.randrange(1, minlen - 1)]))
+    offs = ([0] + sorted(mids) + [None])[:nt] if nt > 1 else [0]
+    if nt > 1:
+        offs[-1] = None      # the last slot is the last instant of its own window
+    ptype, vtype = rng.choice(WIDE), rng.choice(WIDE)
+    return dict(fine=unit, fsec=None, coarse=unit, csec=None, cal=wins, nt=nt, ratio=1, F=[0], nanos=nanos, offs=offs, kind=kind,
+                ptype=ptype, pmap=pick_levels(rng, ptype, np_), vtype=vtype, vaff=list(rng.choice(AFFINE[vtype])),
+                sums=rng.choice(["", "s", "a", "sa"]), pname=rng.choice(["Px", "Price", "Bid", "Last"]), vname=rng.choice(["Vol", "Size", "Qty"]),
+                cnames=["Open", "High", "Low", "Close"], named=rng.random() < 0.3,
+                windows_utc=[time.strftime("%Y-%m-%d", time.gmtime(a)) for a, _ in wins])
+
+
 def coarse_start(c, w):
     """epoch of the coarse window whose model start time is w"""
+    if "cal" in c:
+        return c["cal"][w // (c["ratio"] * c["nt"])][0]
     return c["day0"] + (c["idx0"] + c["js"][w // (c["ratio"] * c["nt"])]) * c["csec"]
 
 
@@ -147,6 +196,12 @@ def fine_start(c, w):
 
 
 def t_ns(c, t):
+    if "cal" in c:
+        start, length = c["cal"][t // c["nt"]]
+        off = c["offs"][t % c["nt"]]
+        if off is None:
+            return (start + length) * 10 ** 9 - (1 if c["nanos"] else 10 ** 9)
+        return (start + off) * 10 ** 9 + (7 if c["nanos"] and off else 0)
     return fine_start(c, t) * 10 ** 9 + c["offs"][t % c["nt"]]
 
 
@@ -365,6 +420,16 @@ def run_c21(tier):
             cases.append({"id": cid, "ops": ops})
             meta[json.dumps(cid)] = (case, c, ops)
             per_tf[tf[0]] = per_tf.get(tf[0], 0) + 1
+            # calendar windows (weeks, months, years; UTC): the window model is the same, the windows have unequal lengths and the
+            # series may skip over a year end
+            if cls == "daily" and kind == "tick" and len(rows) >= 2 and (n % (3 if quick else 1) == 0):
+                unit = ["1M", "1W"][(n // 3) % 2]       # ('1Y' is a 365-day duration for Truncate/Ceil, not a calendar year: covered as a duration)
+                c2 = make_conc_cal(rng, unit, nt, nw, np_, kind)
+                ops2 = [agg_op("run", [candle_cols(c2, rows)], chain=[candle_call(c2, unit)])]
+                cid = "cal%d" % n
+                cases.append({"id": cid, "ops": ops2})
+                meta[json.dumps(cid)] = (case, c2, ops2)
+                per_tf[unit] = per_tf.get(unit, 0) + 1
     vlib.log("[C21] %d cases concretised, replaying" % len(cases))
     obs = vlib.run_cases(binary, cases, timeout=1200 if quick else 3000)
     vlib.log("[C21] replay done, comparing")
